@@ -236,6 +236,7 @@ type c15Net struct {
 	paths []snet.Path
 	srvIP netip.Addr
 	state map[[2]int][2]uint64 // (dscp, path) -> last (rx, tx) reported
+	bad   map[int]bool         // paths whose server answers with an unusable (stratum 0) response this round
 }
 
 func (nw *c15Net) handler(pi int) func(s *peer.NTPServer, dg []byte, from netip.AddrPort, rx time.Time) {
@@ -257,6 +258,11 @@ func (nw *c15Net) handler(pi int) func(s *peer.NTPServer, dg []byte, from netip.
 		nw.mu.Unlock()
 		now := time.Now()
 		fl := peer.NTPFields{LVM: 0x24, Stratum: 1, Precision: -30, Origin: f.Transmit, Receive: peer.ToNTP64(rx.Add(th)), Transmit: peer.ToNTP64(now.Add(th))}
+		nw.mu.Lock()
+		if nw.bad[pi] {
+			fl.Stratum = 0
+		}
+		nw.mu.Unlock()
 		if inter && st[0] == f.Origin {
 			fl.Origin, fl.Transmit = f.Receive, st[1]
 		}
@@ -347,6 +353,15 @@ func c15Rounds(r *ev.Run) {
 			}
 			nw.mu.Lock()
 			nw.obs = nil
+			nw.bad = map[int]bool{}
+			if rng.IntN(3) == 0 { // some servers answer with a response the client must reject
+				for _, p := range offered {
+					if rng.IntN(3) == 0 {
+						nw.bad[p] = true
+					}
+				}
+			}
+			badNow := nw.bad
 			nw.mu.Unlock()
 			resetsBefore := make([]int, nC)
 			for i, s := range spies {
@@ -418,9 +433,20 @@ func c15Rounds(r *ev.Run) {
 					r.Class("round:no-path-error")
 				}
 			} else if err != nil {
-				r.Violation("MeasureClockOffsetSCION|wrong-value:error although paths were offered and every server answered", id, w)
-				bad = true
+				anyGood := false
+				for _, pp := range c2p {
+					for p := range pp {
+						anyGood = anyGood || !badNow[p]
+					}
+				}
+				if anyGood {
+					r.Violation("MeasureClockOffsetSCION|wrong-value:error although a participating client got a usable response", id, w)
+					bad = true
+				} else {
+					r.Class("round:every-participant-failed->error")
+				}
 			}
+			w["paths_with_unusable_responses"] = fmt.Sprint(badNow)
 			// sticky interleaved paths
 			for d, pp := range prevPath {
 				if !wasInter[d] {
@@ -454,8 +480,17 @@ func c15Rounds(r *ev.Run) {
 				var th []int64
 				for _, pp := range c2p {
 					for p := range pp {
-						th = append(th, int64(nw.theta[p]))
+						if !badNow[p] { // a client whose measurement failed contributes no value
+							th = append(th, int64(nw.theta[p]))
+						}
 					}
+				}
+				if len(th) < len(c2p) {
+					r.Class("round:some-participants-failed")
+				}
+				if len(th) == 0 {
+					r.Violation("MeasureClockOffsetSCION|wrong-value:success although every participating client's measurement failed", id, w)
+					break
 				}
 				lo, hi := ftmBounds(th)
 				mid := lo + (hi-lo)/2 // the statement names the fault-tolerant midpoint itself
